@@ -347,15 +347,19 @@ def maxAccepted (vals : List α) : α :=
 
 def samePair (p : Nat × Nat) (i j : Nat) : Bool := (p.1 == i && p.2 == j) || (p.1 == j && p.2 == i)
 
+/-- what the final loop writes into the cells of the pairs in `uncompute`: `2 * max` (in the repaired
+variant: NaN when no accepted entry is positive) -/
+def substitute (v : Variant) (entries : List ((Nat × Nat) × α)) : α :=
+  let mx := maxAccepted (entries.map (·.2))
+  if v.substituteNaNWhenNoMax && RealLike.eqb mx 0 then (0 : α) / (0 : α) else 2 * mx
+
 /-- value of cell (i, j) after the worker loop and the final substitution loop.  `entries`: the
 processed pairs with their distances, in processing order.  A cell holds the last value written
 to it (each pair writes both mirror cells); it is overwritten by the substitute when any
 processing of the pair was flagged. -/
 def cell (v : Variant) (entries : List ((Nat × Nat) × α)) (i j : Nat) : α :=
   let mine := entries.filter fun e => samePair e.1 i j
-  let mx := maxAccepted (entries.map (·.2))
-  let subst : α := if v.substituteNaNWhenNoMax && RealLike.eqb mx 0 then (0 : α) / (0 : α) else 2 * mx
-  if mine.any (fun e => isUncomputable e.2) then subst
+  if mine.any (fun e => isUncomputable e.2) then substitute v entries
   else match mine.getLast? with
     | some e => e.2
     | none => 0
